@@ -344,6 +344,109 @@ def _safe_align(case, a, b):
             return None, e
 
 
+
+def align_extras(ctx: Ctx, case, src_t, tgt_t, X, S64, T64, eps) -> bool:
+    """(10) every spelling of the call, (12) grad modes, (13) Parameter operands, (15) the result owns its memory, and the
+    differentiability oracle (D42): all must give the values of the plain call bit for bit"""
+    P = pp()
+    fn = case["fn"]
+    ok = True
+    base = raw(X)
+    ws = case["with_scale"]
+
+    def f_pos(a, b):
+        return P.svdtf(a, b) if fn == "svdtf" else P.svdstf(a, b, ws)
+
+    def f_kw(a, b):
+        return P.svdtf(source=a, target=b) if fn == "svdtf" else P.svdstf(source=a, target=b, with_scale=ws)
+
+    def f_mixed(a, b):
+        return P.svdtf(a, target=b) if fn == "svdtf" else P.svdstf(a, b, with_scale=ws)
+
+    variants = [("positional", f_pos, "plain"), ("keyword", f_kw, "plain"), ("mixed", f_mixed, "plain"), ("positional", f_pos, "no_grad"),
+                ("keyword", f_kw, "inference"), ("positional", f_pos, "requires_grad"), ("mixed", f_mixed, "parameter")]
+    for style, f, mode in variants:
+        a, b = as_mode(src_t, mode), as_mode(tgt_t, mode)
+        if case.get("alias"):
+            b = a
+        try:
+            with warnings.catch_warnings(), grad_mode(mode):
+                warnings.simplefilter("ignore")
+                Y = f(a, b)
+        except Exception as e:  # noqa: BLE001
+            ctx.fail(case, f"raises: {fn} raises {type(e).__name__}: {str(e)[:100]} with {style} arguments in grad mode {mode} although the plain call returns")
+            ok = False
+            continue
+        ctx.count(f"align.extras.{mode}")
+        if not lie_equal(Y, X) and mode in ("requires_grad", "parameter") and type(Y).__name__ == "LieTensor" and Y.shape == X.shape \
+                and Y.dtype == X.dtype and bool(torch.isfinite(raw(Y)).all()):
+            # graph-recording operands make torch pick other (broadcast) matmul kernels: last-bit differences are legitimate; the two
+            # results must be equally good transforms of the same correspondences
+            ctx.count("align.extras.grad-mode-rounding-differs")
+            nbx = len(case["items"])
+            Ya, Xa = raw(Y).double().reshape(nbx, -1), base.double().reshape(nbx, -1)
+            for i in range(nbx):
+                sa, ta = S64[i if case["bcast"] != "src1" else 0], T64[i]
+                st = U.stats(sa, ta)
+                if st["A"] == 0 or st["B"] == 0:
+                    continue
+                cy, cx = U.cost_vec(Ya[i], sa, ta), U.cost_vec(Xa[i], sa, ta)
+                sc = float(Xa[i][7]) if fn == "svdstf" else 1.0
+                cent = 1 + st["Ds"] / st["ss"] + st["Dt"] / st["st"]
+                e64 = common.EPS["float64"]
+                tol = cost_tol(eps, st, sc, cent) + 32 * e64 * (st["Dt"] + sc * st["Ds"]) * math.sqrt(st["N"] * max(cy, cx, 0.0)) \
+                    + 64 * st["N"] * (e64 * (st["Dt"] + sc * st["Ds"])) ** 2
+                if not (abs(cy - cx) <= tol):
+                    ctx.fail(dict(case, item=i), f"grad-mode: {fn} in grad mode {mode} returns a transform with sum of squared residuals {cy:.6e}, "
+                                                 f"the plain call {cx:.6e} (allowance {tol:.2e})")
+                    ok = False
+        elif not lie_equal(Y, X):
+            d = float((raw(Y).double() - base.double()).abs().max()) if getattr(Y, "shape", None) == X.shape else float("nan")
+            ctx.fail(case, f"spelling: {fn} with {style} arguments in grad mode {mode} returns {type(Y).__name__}{tuple(getattr(Y, 'shape', ()))} "
+                           f"differing from the plain positional call by {d:.3e}")
+            ok = False
+            continue
+        if mode == "requires_grad":
+            # differentiable (D42): backward through the result runs; finite gradients on generic, noisy clouds
+            try:
+                raw_out = Y.tensor()
+                raw_out.sum().backward()
+                it0 = case["items"][0]
+                generic = all(it["cloud"] in ("generic", "aniso") and it["noise"] >= 1e-3 and it["nkind"] == "iso" for it in case["items"]) \
+                    and case["N"] >= 4 and case["bcast"] == "none" and not case.get("alias")
+                if generic:
+                    ctx.count("align.backward-finite-checked")
+                    if a.grad is None or not torch.isfinite(a.grad).all() or not torch.isfinite(b.grad).all():
+                        ctx.fail(case, f"backward: the gradient of {fn} w.r.t. its clouds is missing or not finite on generic noisy clouds "
+                                       f"(N={case['N']}, {it0['cloud']})")
+                        ok = False
+            except Exception as e:  # noqa: BLE001
+                ctx.fail(case, f"backward: backward through the result of {fn} raises {type(e).__name__}: {str(e)[:100]}")
+                ok = False
+    # (15) ownership
+    ok = owns_memory(ctx, case, X, [("the source", src_t), ("the target", tgt_t)], fn) and ok
+    if base.dim() >= 2 and base.shape[0] >= 2:
+        snapshot = base.clone()
+        with torch.no_grad():
+            base[0].mul_(2.0)
+        if not torch.equal(base[1:], snapshot[1:]):
+            ctx.fail(case, f"alias: changing item 0 of the batch returned by {fn} in place changes other items")
+            ok = False
+        with warnings.catch_warnings():
+            warnings.simplefilter("ignore")
+            try:
+                Z = f_pos(src_t, tgt_t if not case.get("alias") else src_t)
+                if not torch.equal(raw(Z), snapshot):
+                    ctx.fail(case, f"alias: after the caller changed a returned result in place, {fn} returns something else for the same arguments")
+                    ok = False
+            except Exception as e:  # noqa: BLE001
+                ctx.fail(case, f"raises: second {fn} call raises {type(e).__name__}")
+                ok = False
+        with torch.no_grad():
+            base.copy_(snapshot)
+    return ok
+
+
 def mixed_and_stale(ctx: Ctx, case, src_t, tgt_t, S64, T64, Xf, eps) -> bool:
     """(7) every item of a batched call against the same call on that item alone; (5) the caller's tensors are updated in
     place after the call and the function is called again: the result must describe the *current* contents."""
@@ -503,7 +606,9 @@ def check_align_gen(ctx: Ctx, case, use_model=True):
         ctx.fail(case, f"type: {fn} returned {type(X).__name__} {getattr(X, 'ltype', None)} shape {tuple(X.shape)} {X.dtype} "
                        f"for batch {batch} dtype {dtype}")
         return False
-    Xf = X.tensor().detach().double().reshape(nb, dim)
+    Xf = X.tensor().detach().double().reshape(nb, dim).clone()
+    if case.get("extras"):
+        ok = align_extras(ctx, case, src_t, tgt_t, X, S64, T64, eps) and ok
     ok = mixed_and_stale(ctx, case, src_t, tgt_t, S64, T64, Xf, eps) and ok
     # exact cost of the implementation's transform (model arithmetic)
     lines2 = []
@@ -649,6 +754,19 @@ def corner_cases(r: random.Random):
                                                                         dict(Z, cloud="aniso", qkind="mid", extent=1e6, nkind="mirror", noise=0.05, **sc),
                                                                         dict(Z, cloud="generic", qkind="small", extent=1.0, noise=0.3, **sc)],
                                   tag="corner-extreme-mixed-" + dt))
+    # hardening 2: special sizes (N = 3 = the coordinate dimension, N = 4; batch extents 1..4 in every batch position),
+    # with_scale=False on mixed batches, rotations at the branch thresholds of the matrix->quaternion conversion
+    for fn in ("svdtf", "svdstf"):
+        sc = {"scale": 2.0} if fn == "svdstf" else {}
+        for N_, bshape in ((3, (3,)), (3, (3, 3)), (3, (1, 3)), (3, (3, 1)), (4, (4,)), (4, (4, 3)), (3, (4,)), (4, (3,)), (3, (2, 2)), (4, (1,)), (5, (4, 4))):
+            out.append(build_case(fixed, fn, N_, "float64" if len(bshape) == 1 else "float32", bshape, "none",
+                                  with_scale=(N_ + len(bshape)) % 2 == 0,
+                                  corners=[dict(Z, cloud="generic", qkind="uniform", noise=0.1, **sc), dict(Z, cloud="generic", qkind="pi", **sc),
+                                           dict(Z, cloud="generic", qkind="uniform", nkind="mirror", noise=0.05, **sc),
+                                           dict(Z, cloud="aniso", qkind="mid", noise=0.3, **sc)], tag="corner-sizes"))
+        out.append(build_case(fixed, fn, 6, "float64", (8,), "none", corners=[dict(Z, cloud="generic", qkind=k, **sc) for k in
+                                                                           ("r22_atol", "r22_atol", "diag_tie", "diag_tie", "r22_atol", "diag_tie", "r22_atol", "diag_tie")],
+                              tag="corner-conversion-thresholds"))
     # svdstf: the whole scale range of the quantifier and beyond, without scale, default argument
     out.append(build_case(fixed, "svdstf", 8, "float64", (7,), "none", corners=[dict(Z, cloud="generic", qkind="uniform", scale=s) for s in
                                                                             (0.1, 10.0, 1e-3, 1e3, 0.5, 3.0, 1.0)], tag="corner-scale-ladder"))
@@ -674,6 +792,7 @@ def random_align_case(r: random.Random) -> dict:
     case["layout"] = [r.choice(LAYOUTS), r.choice(LAYOUTS)]
     if bcast == "none" and r.random() < 0.06:
         case["alias"] = True
+    case["extras"] = r.random() < 0.25
     return case
 
 
@@ -1474,19 +1593,602 @@ def run_histories(ctx: Ctx, n_icp: int, n_epnp: int):
         check_epnp_history(ctx, h)
 
 
+
+# ----------------------------------------------------------------------------- hardening pass 2: lifecycles of ICP / EPnP objects
+# keywords (ord, dim, init, intrinsics; positional vs keyword; verbose steppers), failing calls (atomicity), grad modes, copies
+# (deepcopy / copy / pickle / state_dict) used interleaved with the original, outputs owning their memory, special sizes,
+# two objects of different dtypes driven alternately in one process.
+
+import contextlib
+import copy as _copy
+import io as _io
+import pickle as _pickle
+
+GRAD_MODES = ["plain", "plain", "no_grad", "inference", "requires_grad", "parameter"]
+SIZES_B = [(), (), (1,), (2,), (3,), (4,), (2, 2), (3, 1), (1, 3)]
+
+
+class RaisingStepper(FixedStepper):
+    """FixedStepper whose `step` raises once armed (a user callback failing in the middle of a run)"""
+
+    def __init__(self, n):
+        super().__init__(n)
+        self.arm_at = None
+
+    def step(self, loss):
+        if self.arm_at is not None and self.steps >= self.arm_at:
+            raise RuntimeError("stepper callback failed (injected)")
+        super().step(loss)
+
+
+@contextlib.contextmanager
+def grad_mode(mode):
+    if mode == "no_grad":
+        with torch.no_grad():
+            yield
+    elif mode == "inference":
+        with torch.inference_mode():
+            yield
+    else:
+        yield
+
+
+def as_mode(t, mode):
+    if mode == "requires_grad":
+        return t.clone().requires_grad_(True)
+    if mode == "parameter":
+        return torch.nn.Parameter(t.clone())
+    return t
+
+
+def raw(x):
+    return torch.Tensor.as_subclass(x.detach(), torch.Tensor)
+
+
+def overlaps(a, b) -> bool:
+    """do two tensors share memory?"""
+    a, b = raw(a), raw(b)
+    if a.numel() == 0 or b.numel() == 0:
+        return False
+    return a.untyped_storage().data_ptr() == b.untyped_storage().data_ptr()
+
+
+def owns_memory(ctx, case, out, others, what) -> bool:
+    """(15) a result must not be a stride-0 / self-overlapping view and must not alias an argument or module state"""
+    t = raw(out)
+    ok = True
+    if t.dim() > 0 and t.numel() > 1 and any(st == 0 and sz > 1 for st, sz in zip(t.stride(), t.shape)):
+        ctx.fail(case, f"alias: {what} returns a result whose items overlap in memory (stride {t.stride()} for shape {tuple(t.shape)})")
+        ok = False
+    for name, o in others:
+        if o is not None and overlaps(t, o):
+            ctx.fail(case, f"alias: the result of {what} shares its memory with {name}")
+            ok = False
+    return ok
+
+
+def pickle_roundtrip(obj):
+    buf = _io.BytesIO()
+    _pickle.dump(obj, buf)
+    buf.seek(0)
+    return _pickle.load(buf)
+
+
+def lie_equal(a, b) -> bool:
+    return type(a).__name__ == type(b).__name__ == "LieTensor" and a.shape == b.shape and a.dtype == b.dtype and \
+        bool(torch.equal(raw(a), raw(b)))
+
+
+def ord_norm(d, o):
+    if o == 1:
+        return d.abs().sum(-1)
+    if o == float("inf"):
+        return d.abs().amax(-1)
+    return (d.abs() ** o).sum(-1) ** (1.0 / o)
+
+
+def icp_life_spec(r: random.Random, **kw) -> dict:
+    spec = {"kind": "icp_life", "seed": r.randrange(1 << 30), "stepper": r.choice(["raising", "raising", "bason", "bason_verbose", "default"]),
+            "ctor_init": r.random() < 0.5, "dtype": r.choice(["float64", "float64", "float32"]), "nsteps": r.choice([6, 8]),
+            "passes": r.choice([1, 2, 3]), "sizes": None}
+    spec.update(kw)
+    return spec
+
+
+def life_stepper(kind, n):
+    P = pp()
+    if kind == "raising":
+        return RaisingStepper(n)
+    if kind == "bason":
+        return P.utils.ReduceToBason(steps=n + 2, patience=2, decreasing=1e-3, tol=1e-9)
+    if kind == "bason_verbose":
+        return P.utils.ReduceToBason(steps=n + 2, patience=2, decreasing=1e-3, tol=1e-9, verbose=True)
+    return None
+
+
+def icp_lifecycle(ctx: Ctx, ls):
+    """generator (one `yield` per action, so that two objects can be driven alternately)"""
+    P = pp()
+    r = random.Random(ls["seed"])
+    dt = getattr(torch, ls["dtype"])
+    eps = common.EPS[ls["dtype"]]
+    mk_init = lambda: P.SE3(torch.tensor([r.uniform(-0.05, 0.05) for _ in range(3)] + U.rand_quat(r, "small"), dtype=torch.float64).to(dt))  # noqa: E731
+    init0 = mk_init() if ls["ctor_init"] else None
+    stp = life_stepper(ls["stepper"], ls["passes"])
+    try:
+        m0 = P.module.ICP(init=init0, stepper=stp) if stp is not None else P.module.ICP(init=init0)
+    except Exception as e:  # noqa: BLE001
+        ctx.fail(dict(ls), f"raises: constructing ICP raises {type(e).__name__}: {str(e)[:100]}")
+        return False
+    # every module object with the value its `init` is expected to hold
+    mods = [{"m": m0, "exp": None if init0 is None else raw(init0).clone(), "how": "original", "shares": True}]
+    ok = True
+    sizes = list(ls["sizes"]) if ls.get("sizes") else None
+
+    def fresh_call(exp, S, T, fwd, kw):
+        st2 = life_stepper(ls["stepper"], ls["passes"])
+        i2 = None if exp is None else P.SE3(exp.clone())
+        m2 = P.module.ICP(init=i2, stepper=st2) if st2 is not None else P.module.ICP(init=i2)
+        with warnings.catch_warnings(), contextlib.redirect_stdout(_io.StringIO()):
+            warnings.simplefilter("ignore")
+            return m2(S.clone(), T.clone(), init=None if fwd is None else P.SE3(raw(fwd).clone()), **kw)
+
+    def check_state(case, when):
+        good = True
+        for md in mods:
+            m = md["m"]
+            cur = None if m.init is None else raw(m.init)
+            if (cur is None) != (md["exp"] is None) or (cur is not None and not torch.equal(cur, md["exp"])):
+                ctx.fail(case, f"state: {when}: the `init` of the {md['how']} ICP module is not what its owner set "
+                               f"(copies and originals must not be coupled; a failed call must leave the module as it was)")
+                good = False
+        return good
+
+    for step in range(ls["nsteps"]):
+        case = dict(ls, step=step)
+        action = "call" if step == 0 else r.choice(["call", "call", "call", "fail", "copy", "update_init"])
+        ctx.count(f"icp_life.{action}")
+        if action == "update_init":
+            tgt_md = r.choice(mods)
+            if tgt_md["exp"] is not None:
+                new = mk_init()
+                with torch.no_grad():
+                    tgt_md["m"].init.copy_(new)
+                for md in mods:      # modules sharing the very same tensor object see the update; deep copies must not
+                    if md["m"].init is tgt_md["m"].init:
+                        md["exp"] = raw(new).clone()
+            ok = check_state(case, "after an in-place update of one module's init") and ok
+            yield
+            continue
+        if action == "copy":
+            src_md = r.choice(mods)
+            how = r.choice(["deepcopy", "deepcopy", "pickle", "copy"])
+            try:
+                with warnings.catch_warnings():
+                    warnings.simplefilter("ignore")
+                    m2 = {"deepcopy": _copy.deepcopy, "pickle": pickle_roundtrip, "copy": _copy.copy}[how](src_md["m"])
+            except Exception as e:  # noqa: BLE001
+                if src_md.get("grad_used"):     # observation (scope rule): copying a module that has seen graph tensors
+                    ctx.count(f"icp_life.copy.{how}.raises-after-grad-call")
+                else:
+                    ctx.fail(case, f"raises: {how} of an ICP module raises {type(e).__name__}: {str(e)[:100]}")
+                    ok = False
+                yield
+                continue
+            if how != "copy" and m2.init is not None and (m2.init is src_md["m"].init or overlaps(m2.init, src_md["m"].init)):
+                ctx.fail(case, f"alias: the {how} of an ICP module shares its `init` tensor with the original")
+                ok = False
+            if how != "copy" and m2.stepper is src_md["m"].stepper:
+                ctx.fail(case, f"alias: the {how} of an ICP module shares its stepper object with the original")
+                ok = False
+            mods.append({"m": m2, "exp": None if src_md["exp"] is None else src_md["exp"].clone(), "how": how, "shares": how == "copy", "grad_used": src_md.get("grad_used", False)})
+            ctx.count(f"icp_life.copy.{how}")
+            yield
+            continue
+        # data of this call
+        bshape = sizes.pop(0) if sizes else r.choice(SIZES_B)
+        N = r.choice([3, 3, 4, 4, 5, 8, 13])
+        extra = r.choice([0, 0, 0, 2, 5])
+        nbi = int(math.prod(bshape)) if bshape else 1
+        items = []
+        for b in range(nbi):
+            sp = icp_spec(r, N, True, extra=extra, drop=0, init="none", batch=0, offset=r.choice([0.0, 5.0]),
+                          ang=r.choice([0.0, 1e-4, 3e-3]), tr=r.choice([0.0, 1e-4, 1e-3]))
+            if r.random() < 0.35:       # spacing regimes of the ReduceToBason thresholds (tol 1e-5 / 1e-9) in the noise
+                sp["tnoise"] = r.choice([5e-6, 1e-5, 2e-5, 1e-9, 1e-3])
+            src, tgt, truth, _ = icp_data(sp)
+            if r.random() < 0.3 and len(tgt) >= 2:      # near-duplicate targets: nearest-neighbour near-ties
+                d = r.choice([0.0, 1e-12, 1e-7])
+                tgt[-1] = [v + d for v in tgt[0]] if extra else tgt[-1]
+            items.append((src, tgt, truth, sp))
+        S = torch.tensor([it[0] for it in items], dtype=torch.float64).to(dt).reshape(tuple(bshape) + (N, 3))
+        T = torch.tensor([it[1] for it in items], dtype=torch.float64).to(dt).reshape(tuple(bshape) + (N + extra, 3))
+        fwd = mk_init() if r.random() < 0.35 else None
+        if action == "fail":
+            # (11) a call that raises must leave every object as it was
+            kind = r.choice(["bad_point_dim", "init_not_lietensor", "init_wrong_dtype", "stepper_raises", "stepper_raises", "bad_ord", "target_not_tensor"])
+            if not isinstance(r.choice(mods)["m"].stepper, RaisingStepper) and kind == "stepper_raises":
+                kind = "init_not_lietensor"
+            md = r.choice(mods)
+            m = md["m"]
+            stepper_before = m.stepper
+            armed = False
+            try:
+                with warnings.catch_warnings(), contextlib.redirect_stdout(_io.StringIO()):
+                    warnings.simplefilter("ignore")
+                    if kind == "bad_point_dim":
+                        m(S, T[..., :2])
+                    elif kind == "init_not_lietensor":
+                        m(S, T, init=torch.zeros(7, dtype=dt))
+                    elif kind == "init_wrong_dtype":
+                        m(S, T, init=P.SE3(torch.tensor([0., 0, 0, 0, 0, 0, 1], dtype=torch.float32 if dt == torch.float64 else torch.float64)))
+                    elif kind == "bad_ord":
+                        m(S, T, ord="fro")
+                    elif kind == "target_not_tensor":
+                        m(S, None)
+                    elif isinstance(m.stepper, RaisingStepper):
+                        m.stepper.arm_at = r.choice([0, 1])
+                        armed = True
+                        fi = fwd if fwd is not None else (mk_init() if r.random() < 0.6 else None)     # every keyword also on the failing path
+                        m(S, T, init=fi) if fi is not None else m(S, T)
+                ctx.count(f"icp_life.fail.{kind}.no-exception")
+            except Exception:  # noqa: BLE001 — expected
+                ctx.count(f"icp_life.fail.{kind}.raised")
+            finally:
+                if armed:
+                    m.stepper.arm_at = None
+            # scope rule: only exceptions a valid use can produce (a user callback raising, a documented argument check) are
+            # failures of atomicity; what the module looks like after invalid caller input is only recorded
+            valid = kind in ("stepper_raises", "init_not_lietensor")
+            n0 = len(ctx.failures)
+            if m.stepper is not stepper_before:
+                ctx.fail(case, f"state: a failing call ({kind}) replaced the ICP module's stepper")
+            check_state(case, f"after a failing call ({kind}) on the {md['how']} module")
+            if len(ctx.failures) > n0:
+                if valid:
+                    ok = False
+                else:
+                    del ctx.failures[n0:]
+                    ctx.count(f"icp_life.fail.{kind}.state-changed-after-invalid-input")
+            yield
+            continue
+        # (10) keywords
+        o = r.choice([None, None, 2, 1, float("inf"), 3])
+        kw = {}
+        if o is not None:
+            kw["ord"] = o
+        if r.random() < 0.3:
+            kw["dim"] = -1
+        style = r.choice(["positional", "keyword"])
+        mode = r.choice(GRAD_MODES)
+        case.update(batch=list(bshape), N=N, M=N + extra, ord=str(o), style=style, grad=mode, forward_init=fwd is not None)
+        for md in list(mods):
+            m = md["m"]
+            a, b = as_mode(S, mode), as_mode(T, mode)
+            if mode in ("requires_grad", "parameter"):
+                for md_ in mods:      # steppers / solvers are shared by shallow copies: they keep the last (graph) loss / solution
+                    md_["grad_used"] = True
+            snap = [(x, raw(x).clone()) for x in (a, b, fwd) if x is not None]
+            try:
+                with warnings.catch_warnings(), contextlib.redirect_stdout(_io.StringIO()), grad_mode(mode):
+                    warnings.simplefilter("ignore")
+                    if style == "keyword":
+                        out = m(source=a, target=b, init=fwd, **kw)
+                    else:
+                        out = m(a, b, kw.get("ord", 2), kw.get("dim", -1), fwd) if kw else (m(a, b, init=fwd) if fwd is not None else m(a, b))
+                ref = fresh_call(md["exp"], S, T, fwd, kw)
+            except Exception as e:  # noqa: BLE001
+                ctx.fail(case, f"raises: ICP raises {type(e).__name__}: {str(e)[:120]} (step {step}, {md['how']} module, batch {bshape}, N={N}, "
+                               f"ord={o}, {style} arguments, grad mode {mode})")
+                ok = False
+                continue
+            ctx.count("icp_life.calls")
+            ctx.count(f"icp_life.grad.{mode}")
+            ctx.count(f"icp_life.ord.{o}")
+            if not lie_equal(out, ref):
+                d = float((raw(out).double() - raw(ref).double()).abs().max()) if getattr(out, "shape", None) == ref.shape else float("nan")
+                ctx.fail(case, f"lifecycle: step {step}: the {md['how']} ICP module ({style} arguments, ord={o}, grad mode {mode}, batch {bshape}, N={N}) "
+                               f"returns {type(out).__name__}{tuple(getattr(out, 'shape', ()))} differing from a fresh module in plain mode by {d:.3e}")
+                ok = False
+                continue
+            for x, x0 in snap:
+                if not torch.equal(raw(x), x0):
+                    ctx.fail(case, f"mutation: ICP changed a tensor of the caller (step {step}, grad mode {mode})")
+                    ok = False
+            ok = owns_memory(ctx, case, out, [("the source", a), ("the target", b), ("the forward init", fwd), ("the module's init", m.init)], "ICP") and ok
+            if isinstance(m.stepper, FixedStepper) and m.stepper.seen:
+                # the keyword `ord`: the first error handed to the stepper is the mean ord-distance to the nearest target
+                e0 = raw(m.stepper.seen[0]).double().reshape(-1)
+                eff_ = raw(fwd).double().reshape(-1) if fwd is not None else (md["exp"].double().reshape(-1) if md["exp"] is not None else None)
+                S64_, T64_ = S.double().reshape(-1, N, 3), T.double().reshape(-1, N + extra, 3)
+                for bi in range(S64_.shape[0]):
+                    c0 = S64_[bi] if eff_ is None else U.apply_vec(eff_, S64_[bi])
+                    want_e = float(ord_norm(c0.unsqueeze(1) - T64_[bi].unsqueeze(0), 2 if o is None else o).min(-1).values.mean())
+                    De = float(max(S64_[bi].abs().max(), T64_[bi].abs().max()))
+                    if e0.numel() == S64_.shape[0] and abs(float(e0[bi]) - want_e) > 256 * eps * De:
+                        ctx.fail(case, f"keyword: with ord={o} the first error handed to the stepper is {float(e0[bi])!r}, the mean ord-distance to the "
+                                       f"nearest target is {want_e!r} (step {step}, item {bi}, batch {bshape})")
+                        ok = False
+        # the property on the common result (all modules agreed with their fresh twins); only the original's init applies to `ref`
+        md = mods[0]
+        ref = fresh_call(md["exp"], S, T, fwd, kw)
+        O = raw(ref).double().reshape(-1, 7)
+        S64, T64 = S.double().reshape(-1, N, 3), T.double().reshape(-1, N + extra, 3)
+        eff = raw(fwd).double().reshape(-1) if fwd is not None else (md["exp"].double().reshape(-1) if md["exp"] is not None else None)
+        oo = 2 if o is None else o
+        for b in range(O.shape[0]):
+            if not torch.isfinite(O[b]).all() or abs(float(O[b, 3:7].norm()) - 1) > UNIT_TOL * eps:
+                ctx.fail(case, f"valid: ICP result is not a valid SE3 element (step {step}, item {b}, batch {bshape})")
+                ok = False
+                continue
+            cur0 = S64[b] if eff is None else U.apply_vec(eff, S64[b])
+            D = float(max(S64[b].abs().max(), T64[b].abs().max()))
+            delta = 256 * eps * D
+            if oo == 2:
+                E0, En = U.mscd(cur0, T64[b]), U.mscd(U.apply_vec(O[b], S64[b]), T64[b])
+                if not (En <= E0 + delta * delta + 2 * delta * math.sqrt(E0) + 64 * eps * E0):
+                    ctx.fail(case, f"monotone: step {step} item {b} (batch {bshape}, N={N}): mean squared closest-point distance {En:.6e} > {E0:.6e} "
+                                   f"of its initial transform")
+                    ok = False
+            truth = items[b][2]
+            want = U.apply_vec(torch.tensor(truth["t"] + truth["q"], dtype=torch.float64), S64[b])
+            diff0 = cur0.unsqueeze(1) - T64[b].unsqueeze(0)
+            dn = ord_norm(diff0, oo)
+            dw = ((want.unsqueeze(1) - T64[b].unsqueeze(0)) ** 2).sum(-1)
+            srt = dn.sort(-1).values
+            gap = float((srt[:, 1] - srt[:, 0]).min()) if srt.shape[1] > 1 else 1.0
+            basin = bool((dn.argmin(-1) == dw.argmin(-1)).all()) and float(dw.min(-1).values.max()) <= (64 * eps * D) ** 2 \
+                and gap > 1e-3 and items[b][3]["tnoise"] == 0
+            if basin:
+                ctx.count("icp_life.basin-items")
+                res = float((U.apply_vec(O[b], S64[b]) - want).abs().max())
+                tolr = 4096 * eps * D * (1 + N ** 0.5)
+                if not (res <= tolr):
+                    ctx.fail(case, f"recover: step {step} item {b} (batch {bshape}, N={N}, ord={o}) is inside the basin but ICP misses the exact rigid "
+                                   f"motion by {res:.3e} > {tolr:.3e}")
+                    ok = False
+        yield
+    # finally: every result ever returned was scaled in place above? (outputs are not kept) — state must still be intact
+    ok = check_state(dict(ls, step="end"), "at the end of the lifecycle") and ok
+    return ok
+
+
+def epnp_life_spec(r: random.Random, **kw) -> dict:
+    spec = {"kind": "epnp_life", "seed": r.randrange(1 << 30), "refine": r.random() < 0.5, "ctorK": r.random() < 0.7, "nsteps": r.choice([5, 7]),
+            "sizes": None}
+    spec.update(kw)
+    return spec
+
+
+def epnp_lifecycle(ctx: Ctx, ls):
+    P = pp()
+    r = random.Random(ls["seed"])
+    mkK = lambda: torch.tensor([[r.choice([300.0, 500.0, 900.0]), 0.0, r.choice([0.0, 320.0])], [0.0, r.choice([300.0, 480.0]), 240.0],  # noqa: E731
+                                [0.0, 0.0, 1.0]], dtype=torch.float64)
+    K0 = mkK() if ls["ctorK"] else None
+    try:
+        m0 = P.module.EPnP(K0, refine=ls["refine"]) if K0 is not None else P.module.EPnP(refine=ls["refine"])
+    except Exception as e:  # noqa: BLE001
+        ctx.fail(dict(ls), f"raises: constructing EPnP raises {type(e).__name__}: {str(e)[:100]}")
+        return False
+    mods = [{"m": m0, "exp": None if K0 is None else K0.clone(), "how": "original"}]
+    ok = True
+    sizes = list(ls["sizes"]) if ls.get("sizes") else None
+
+    def check_state(case, when):
+        good = True
+        for md in mods:
+            m = md["m"]
+            has = hasattr(m, "intrinsics")
+            if m.refine != ls["refine"] or has != (md["exp"] is not None) or (has and not torch.equal(m.intrinsics, md["exp"])):
+                ctx.fail(case, f"state: {when}: refine / default intrinsics of the {md['how']} EPnP module are not what its owner set "
+                               f"(copies and originals must not be coupled; a failed call must leave the module as it was)")
+                good = False
+        return good
+
+    for step in range(ls["nsteps"]):
+        case = dict(ls, step=step)
+        action = "call" if step == 0 else r.choice(["call", "call", "call", "fail", "copy", "update_K"])
+        ctx.count(f"epnp_life.{action}")
+        if action == "update_K":
+            md = r.choice(mods)
+            if md["exp"] is not None:
+                new = mkK()
+                with torch.no_grad():
+                    md["m"].intrinsics.copy_(new)
+                for m2 in mods:
+                    if hasattr(m2["m"], "intrinsics") and m2["m"].intrinsics is md["m"].intrinsics:
+                        m2["exp"] = new.clone()
+            ok = check_state(case, "after an in-place update of one module's intrinsics") and ok
+            yield
+            continue
+        if action == "copy":
+            src_md = r.choice(mods)
+            how = r.choice(["deepcopy", "pickle", "copy", "state_dict"])
+            try:
+                if how == "state_dict":
+                    if src_md["exp"] is None:
+                        yield
+                        continue
+                    m2 = P.module.EPnP(torch.eye(3, dtype=torch.float64), refine=ls["refine"])
+                    m2.load_state_dict(src_md["m"].state_dict())
+                else:
+                    m2 = {"deepcopy": _copy.deepcopy, "pickle": pickle_roundtrip, "copy": _copy.copy}[how](src_md["m"])
+            except Exception as e:  # noqa: BLE001
+                if src_md.get("grad_used"):
+                    # observation (scope rule): after a call with requires_grad operands the module's LSTSQ solver keeps its last
+                    # `out` (a non-leaf graph tensor, pypose/optim/solver.py) and deepcopy / pickle of the module raise
+                    ctx.count(f"epnp_life.copy.{how}.raises-after-grad-call")
+                else:
+                    ctx.fail(case, f"raises: {how} of an EPnP module raises {type(e).__name__}: {str(e)[:100]}")
+                    ok = False
+                yield
+                continue
+            if how != "copy" and src_md["exp"] is not None and overlaps(m2.intrinsics, src_md["m"].intrinsics):
+                ctx.fail(case, f"alias: the {how} copy of an EPnP module shares its intrinsics buffer with the original")
+                ok = False
+            mods.append({"m": m2, "exp": None if src_md["exp"] is None else src_md["exp"].clone(), "how": how,
+                         "grad_used": src_md.get("grad_used", False)})
+            ctx.count(f"epnp_life.copy.{how}")
+            yield
+            continue
+        bshape = sizes.pop(0) if sizes else r.choice(SIZES_B)
+        N = r.choice([6, 6, 7, 8, 12, 13, 24])
+        nbi = int(math.prod(bshape)) if bshape else 1
+        per_item, scenes = [], []
+        for b in range(nbi):
+            sp = epnp_spec(r, N=N, batch=0)
+            pts, q, t, _ = epnp_scene(sp)
+            scenes.append((pts, q, t))
+            per_item.append({"depth": sp["depth"], "aniso": sp["aniso"]})
+        if action == "fail":
+            md = r.choice(mods)
+            kind = r.choice(["three_points", "pixel_count", "intrinsics_shape", "points_not_tensor", "no_intrinsics"])
+            pts = torch.tensor(scenes[0][0], dtype=torch.float64)
+            pix = torch.zeros(N, 2, dtype=torch.float64)
+            try:
+                with warnings.catch_warnings():
+                    warnings.simplefilter("ignore")
+                    if kind == "three_points":
+                        md["m"](pts[:3], pix[:3], mkK())
+                    elif kind == "pixel_count":
+                        md["m"](pts, pix[:-1], mkK())
+                    elif kind == "intrinsics_shape":
+                        md["m"](pts, pix, torch.eye(2, dtype=torch.float64))
+                    elif kind == "points_not_tensor":
+                        md["m"](None, pix, mkK())
+                    else:
+                        md["m"](pts, pix) if md["exp"] is None else md["m"](pts, pix, "K")
+                ctx.count(f"epnp_life.fail.{kind}.no-exception")
+            except Exception:  # noqa: BLE001 — expected
+                ctx.count(f"epnp_life.fail.{kind}.raised")
+            valid = kind in ("three_points", "pixel_count")       # documented assertion of forward()
+            n0 = len(ctx.failures)
+            check_state(case, f"after a failing call ({kind}) on the {md['how']} module")
+            if len(ctx.failures) > n0:
+                if valid:
+                    ok = False
+                else:
+                    del ctx.failures[n0:]
+                    ctx.count(f"epnp_life.fail.{kind}.state-changed-after-invalid-input")
+            yield
+            continue
+        override_K = mkK() if (r.random() < 0.4) else None
+        style = r.choice(["positional", "keyword"])
+        mode = r.choice(GRAD_MODES)
+        T = P.SE3(torch.tensor([s_[2] + s_[1] for s_ in scenes], dtype=torch.float64).reshape(tuple(bshape) + (7,)))
+        pts = torch.tensor([s_[0] for s_ in scenes], dtype=torch.float64).reshape(tuple(bshape) + (N, 3))
+        for md in list(mods):
+            K = override_K if override_K is not None else md["exp"]
+            if K is None:
+                K = mkK()
+                use_override = True
+            else:
+                use_override = override_K is not None
+            pix = P.point2pixel(pts, K, T)
+            if float((T.unsqueeze(-2) @ pts)[..., 2].min()) <= 0:
+                continue
+            cs = dict(case, N=N, batch=list(bshape), style=style, grad=mode, override=use_override, refine=ls["refine"], f=float(K[0, 0]),
+                      depth=per_item[0]["depth"], aniso=per_item[0]["aniso"], per_item=per_item)
+            a, b = as_mode(pts, mode), as_mode(pix, mode)
+            if mode in ("requires_grad", "parameter"):
+                for md_ in mods:      # steppers / solvers are shared by shallow copies: they keep the last (graph) loss / solution
+                    md_["grad_used"] = True
+            snap = [(x, raw(x).clone()) for x in (a, b, K)]
+            try:
+                with warnings.catch_warnings(), grad_mode(mode):
+                    warnings.simplefilter("ignore")
+                    if style == "keyword":
+                        est = md["m"](points=a, pixels=b, intrinsics=K) if use_override else md["m"](points=a, pixels=b)
+                    else:
+                        est = md["m"](a, b, K) if use_override else md["m"](a, b)
+                with warnings.catch_warnings():
+                    warnings.simplefilter("ignore")
+                    m2 = P.module.EPnP(md["exp"].clone(), refine=ls["refine"]) if md["exp"] is not None else P.module.EPnP(refine=ls["refine"])
+                    ref = m2(pts.clone(), pix.clone(), K.clone()) if use_override else m2(pts.clone(), pix.clone())
+            except Exception as e:  # noqa: BLE001
+                ctx.fail(cs, f"raises: EPnP raises {type(e).__name__}: {str(e)[:120]} (step {step}, {md['how']} module, batch {bshape}, N={N}, "
+                             f"{style} arguments, grad mode {mode}, refine={ls['refine']})")
+                ok = False
+                continue
+            ctx.count("epnp_life.calls")
+            ctx.count(f"epnp_life.grad.{mode}")
+            if not lie_equal(est, ref):
+                same_shape = getattr(est, "shape", None) == ref.shape
+                if mode in ("requires_grad", "parameter") and same_shape:
+                    # with graph-recording operands torch takes other kernels (lstsq / solve backward-capable paths): the values
+                    # differ in the last bits (1e-16 .. 1e-13 observed); the accuracy oracle below decides
+                    ctx.count("epnp_life.grad-mode-rounding-differs")
+                elif mode == "inference" and ls["refine"] and same_shape:
+                    # observed on the unchanged tree: under torch.inference_mode() the Gauss-Newton refinement is a silent no-op
+                    # (optim.functional.modjac's @torch.enable_grad() cannot override inference mode); the accuracy oracle below
+                    # (tier of the unrefined solution) still applies
+                    ctx.count("epnp.inference-refine-skipped")      # out of scope (coordinator's decision): observation only
+                else:
+                    d = float((raw(est).double() - raw(ref).double()).abs().max()) if same_shape else float("nan")
+                    ctx.fail(cs, f"lifecycle: step {step}: the {md['how']} EPnP module ({style} arguments, grad mode {mode}, batch {bshape}, N={N}, "
+                                 f"override={use_override}) returns {type(est).__name__}{tuple(getattr(est, 'shape', ()))} differing from a fresh module "
+                                 f"in plain mode by {d:.3e}")
+                    ok = False
+                    continue
+            for x, x0 in snap:
+                if not torch.equal(raw(x), x0):
+                    ctx.fail(cs, f"mutation: EPnP changed a tensor of the caller (step {step}, grad mode {mode})")
+                    ok = False
+            ok = owns_memory(ctx, cs, est, [("the points", a), ("the pixels", b), ("the intrinsics", K)], "EPnP") and ok
+            cs2 = dict(cs, refine=ls["refine"] and mode != "inference")
+            ok = epnp_compare(ctx, cs2, P.SE3(raw(est).clone()), T, pts, pix, K) and ok
+        ok = check_state(case, f"after call {step}") and ok
+        yield
+    return ok
+
+
+def drive_alternately(gens):
+    """advance several generators in turn until all are exhausted (two objects living in one process, interleaved)"""
+    live = list(gens)
+    while live:
+        for g in list(live):
+            try:
+                next(g)
+            except StopIteration:
+                live.remove(g)
+
+
+def run_lifecycles(ctx: Ctx, n_icp: int, n_epnp: int):
+    fixed = random.Random(31337)
+    small = [(3,), (4,), (3, 3), (1,), (2, 2), (), (1, 3), (3, 1)]
+    il = [icp_life_spec(fixed, stepper=s_, ctor_init=c_, dtype=d_, nsteps=8, sizes=small[k:] + small[:k]) for k, (s_, c_, d_) in enumerate(
+        (("raising", True, "float64"), ("raising", False, "float32"), ("bason_verbose", True, "float32"), ("default", False, "float64")))]
+    il += [icp_life_spec(ctx.rng) for _ in range(n_icp)]
+    el = [epnp_life_spec(fixed, refine=r_, ctorK=k_, nsteps=7, sizes=small[k:] + small[:k]) for k, (r_, k_) in enumerate(
+        ((True, True), (False, True), (True, False), (False, False)))]
+    el += [epnp_life_spec(ctx.rng) for _ in range(n_epnp)]
+    for h in il + el:
+        ctx.note_case((h["kind"], h.get("stepper"), h.get("refine"), h.get("ctor_init", h.get("ctorK")), h.get("dtype"), h["seed"] % 11), True)
+    # pairs of objects (different dtypes / kinds) are driven alternately: module-level state written by one, read by the other
+    order = il + el
+    ctx.rng.shuffle(order)
+    for i in range(0, len(order), 2):
+        pair = order[i:i + 2]
+        drive_alternately([(icp_lifecycle if h["kind"] == "icp_life" else epnp_lifecycle)(ctx, h) for h in pair])
+
+
 # ----------------------------------------------------------------------------- entry points
 
 def run(ctx: Ctx):
     rng = ctx.rng
     cases = corner_cases(rng)
-    n = ctx.pick(420, 9000)
+    for c in cases:
+        c["extras"] = True
+    n = ctx.pick(300, 5500)
     cases += [random_align_case(rng) for _ in range(n)]
     run_align(ctx, cases)
-    specs = icp_corner_specs() + [random_icp_spec(rng) for _ in range(ctx.pick(70, 2000))]
+    specs = icp_corner_specs() + [random_icp_spec(rng) for _ in range(ctx.pick(50, 1500))]
     run_icp(ctx, specs)
-    especs = epnp_corner_specs() + [epnp_spec(rng) for _ in range(ctx.pick(110, 4000))]
+    especs = epnp_corner_specs() + [epnp_spec(rng) for _ in range(ctx.pick(60, 3000))]
     run_epnp(ctx, especs)
-    run_histories(ctx, ctx.pick(14, 150), ctx.pick(10, 120))
+    run_histories(ctx, ctx.pick(6, 70), ctx.pick(5, 60))
+    run_lifecycles(ctx, ctx.pick(6, 70), ctx.pick(5, 60))
     ctx.notes.append("largest error/tolerance ratios: " + ", ".join(f"{k}={v:.3g}" for k, v in sorted(RATIOS.items())))
 
 
@@ -1526,6 +2228,9 @@ def replay(ctx: Ctx, case) -> bool:
         c.pop("kind")
         c.pop("call", None)
         check_epnp_case(ctx, c)
+    elif kind in ("icp_life", "epnp_life"):
+        spec = {k2: v for k2, v in c.items() if k2 in ("kind", "seed", "stepper", "ctor_init", "dtype", "nsteps", "passes", "sizes", "refine", "ctorK")}
+        drive_alternately([(icp_lifecycle if kind == "icp_life" else epnp_lifecycle)(ctx, spec)])
     elif kind == "icp_hist":
         c.pop("call", None)
         check_icp_history(ctx, c)
